@@ -33,7 +33,10 @@ import (
 	"golang.org/x/image/font/gofont/goregular"
 	"golang.org/x/image/font/gofont/gosmallcaps"
 
+	"seehuhn.de/go/geom/matrix"
+	"seehuhn.de/go/postscript/cid"
 	"seehuhn.de/go/postscript/funit"
+	"seehuhn.de/go/postscript/type1"
 
 	"seehuhn.de/go/sfnt"
 	"seehuhn.de/go/sfnt/cff"
@@ -302,6 +305,28 @@ func getFontLocked(spec string) *sfnt.Font {
 		if err != nil {
 			panic(err)
 		}
+	case strings.HasPrefix(spec, "cid:"):
+		// cid:<n>:<base>: the CFF font base made CID-keyed with n private DICTs (FDSelect gid mod n)
+		parts := strings.SplitN(spec, ":", 3)
+		var n int
+		fmt.Sscan(parts[1], &n)
+		base := getFontLocked(parts[2])
+		f = base.Clone()
+		o := *base.Outlines.(*cff.Outlines)
+		o.Encoding = nil
+		o.ROS = &cid.SystemInfo{Registry: "Adobe", Ordering: "Identity", Supplement: 0}
+		o.GIDToCID = make([]cid.CID, len(o.Glyphs))
+		for i := range o.GIDToCID {
+			o.GIDToCID[i] = cid.CID(i)
+		}
+		o.Private = make([]*type1.PrivateDict, n)
+		o.FontMatrices = make([]matrix.Matrix, n)
+		for i := range o.Private {
+			o.Private[i] = base.Outlines.(*cff.Outlines).Private[0]
+			o.FontMatrices[i] = matrix.Identity
+		}
+		o.FDSelect = func(gid glyph.ID) int { return int(gid) % n }
+		f.Outlines = &o
 	case strings.HasPrefix(spec, "big:"):
 		// big:<n>:<base>: the glyf font base with an fpgm table of n zero bytes (a table > 1 MiB)
 		parts := strings.SplitN(spec, ":", 3)
@@ -394,7 +419,14 @@ func getFile(fspec string) []byte {
 			tabs[name] = append([]byte{}, base[rec.Offset:rec.Offset+rec.Length]...)
 		}
 		for _, a := range strings.Split(fspec[6:i], ",") {
-			if a == "x" {
+			if strings.HasPrefix(a, "n") {
+				// nNN: small private tables p000, p001, ... until the file has NN tables
+				var want int
+				fmt.Sscan(a[1:], &want)
+				for j := 0; len(tabs) < want; j++ {
+					tabs[fmt.Sprintf("p%03d", j)] = make([]byte, 1+j%9)
+				}
+			} else if a == "x" {
 				delete(tabs, "GDEF")
 				delete(tabs, "GSUB")
 				delete(tabs, "GPOS")
@@ -599,10 +631,14 @@ func init() {
 		out := make([]string, len(ks))
 		for i, k := range ks {
 			w := &faultWriter{kind: f["w"], k: k}
-			if err := font.Write(w); err != nil {
-				out[i] = "!"
-			} else {
-				out[i] = "."
+			out[i] = guard(func() string {
+				if err := font.Write(w); err != nil {
+					return "!"
+				}
+				return "."
+			})
+			if strings.HasPrefix(out[i], "panic") {
+				out[i] = "P"
 			}
 		}
 		return strings.Join(out, ",")
@@ -979,7 +1015,13 @@ func init() {
 		var sb strings.Builder
 		for _, k := range parseKs(f) {
 			w := &faultWriter{kind: kind, k: k}
-			n, err, hasN := call(w)
+			var n int64
+			var err error
+			var hasN bool
+			if pan := guard(func() string { n, err, hasN = call(w); return "" }); pan != "" {
+				sb.WriteString("PPP") // a panic instead of an error
+				continue
+			}
 			switch {
 			case !hasN:
 				sb.WriteByte('_')
@@ -1031,12 +1073,35 @@ func init() {
 	}
 }
 
+// cidCases: (*cff.Font).Write of a CID-keyed font against every destination kind, every k
+// (V error/no error = model of the section loop; D count predicate, a panic is a failure),
+// and cff.Read on the written data cut / failing at every k.
+func cidCases(c *Ctx, spec string) {
+	font := getFont(spec)
+	rec := &faultWriter{kind: "late", k: 1 << 40}
+	if err := font.AsCFF().Write(rec); err != nil {
+		panic(err)
+	}
+	c.Stat("cff_sections", bucket(len(rec.lens)))
+	c.Stat("cid_keyed_private_dicts", fmt.Sprint(len(font.Outlines.(*cff.Outlines).Private)))
+	for _, kind := range honestKinds {
+		for _, ks := range blocks(0, rec.acc+2) {
+			out := c.Case(Verdict, "faults.cffwrite", fmt.Sprintf("font=%s lens=%s w=%s ks=%s", spec, ints(rec.lens), kind, ks), true)
+			for _, s := range strings.Split(out, ",") {
+				c.Stat("cff_sections_"+kind, map[string]string{"!": "error", ".": "success", "P": "PANIC"}[s])
+			}
+		}
+	}
+	countCases(c, fmt.Sprintf("font=%s api=CFF", spec), rec.acc, true)
+	cffReadCases(c, spec)
+}
+
 // countCases: the D predicate on the real writers, every k.
 func countCases(c *Ctx, args string, total int, nontriv bool) {
 	for _, kind := range honestKinds {
 		for _, ks := range blocks(0, total+2) {
 			out := c.Case(Direct, "faults.count", fmt.Sprintf("%s total=%d w=%s ks=%s", args, total, kind, ks), nontriv)
-			if i := strings.IndexAny(out, "#t"); i >= 0 && !strings.HasPrefix(out, "bad") && !strings.HasPrefix(out, "panic") {
+			if i := strings.IndexAny(out, "#tP"); i >= 0 && !strings.HasPrefix(out, "bad") && !strings.HasPrefix(out, "panic") {
 				// single out the first fault point at which the predicate fails (a short replay)
 				var a int
 				fmt.Sscan(ks, &a)
@@ -1626,8 +1691,20 @@ func fileCases(c *Ctx, fspec string, data []byte) {
 	}
 	c.Stat("trailing_empty_tables", fmt.Sprint(trailingEmpty))
 	hdr := hx(data[:hdrLen])
+	everyHread := len(ents) <= 70 // the model costs O(tables^2) per fault point: sample k for long directories
+	if !everyHread {
+		for _, ks := range sampleKs(c.Rng, ents, hdrLen, total, 100) {
+			for _, mode := range []string{"trunc", "fault"} {
+				out := c.Case(Verdict, "faults.hread", fmt.Sprintf("hdr=%s len=%d mode=%s ks=%s", hdr, total, mode, ks), true)
+				countVerdicts(c, "header.Read_"+mode, out)
+			}
+		}
+	}
 	for _, ks := range blocks(0, total) {
 		for _, mode := range []string{"trunc", "fault"} {
+			if !everyHread {
+				break
+			}
 			out := c.Case(Verdict, "faults.hread", fmt.Sprintf("hdr=%s len=%d mode=%s ks=%s", hdr, total, mode, ks), true)
 			countVerdicts(c, "header.Read_"+mode, out)
 		}
@@ -1846,6 +1923,32 @@ func synthCases(c *Ctx, i int) {
 	}
 }
 
+// safely runs one part of the generator; if the library panics or refuses a corpus file while the
+// cases are being built (a changed library may do that), a failing D line records it instead of
+// the harness crashing: the Lean side answers "built".
+func safely(c *Ctx, where string, f func()) {
+	defer func() {
+		if rec := recover(); rec != nil {
+			msg := strings.Map(func(r rune) rune {
+				if r == ' ' || r == '\t' || r == '\n' || r == '=' {
+					return '_'
+				}
+				return r
+			}, fmt.Sprint(rec))
+			if len(msg) > 120 {
+				msg = msg[:120]
+			}
+			c.Stat("generator", "PANIC while building "+where)
+			c.Case(Direct, "faults.genpanic", fmt.Sprintf("where=%s msg=%s ks=0", where, msg), true)
+		}
+	}()
+	f()
+}
+
+func init() {
+	ops["faults.genpanic"] = func(f Fields) string { return "generator-panic:" + f["msg"] }
+}
+
 // areaFaults: c.N is the number of corpus fonts (6 quick, 40 thorough).
 func areaFaults(c *Ctx) {
 	r := c.Rng
@@ -1915,8 +2018,26 @@ func areaFaults(c *Ctx) {
 			jobs = append(jobs, func() { synthCases(c, j) })
 		}
 	}
-	for _, j := range jobs[:min(len(jobs), max(c.N, 1))] {
-		j()
+	for i, j := range jobs[:min(len(jobs), max(c.N, 1))] {
+		safely(c, fmt.Sprintf("corpus-item-%d", i), j)
+	}
+	// long directories (the reader admits up to 280 tables)
+	manyBase := fmt.Sprintf("sub:%d:%d:go:goregular|Write", r.Range(2, 4), r.Intn(1000000))
+	for _, n := range []int{65, 100, 280} {
+		fspec := fmt.Sprintf("retab(n%d)%s", n, manyBase)
+		safely(c, fspec, func() {
+			c.Stat("many_tables", fmt.Sprint(n))
+			fileCases(c, fspec, getFile(fspec))
+		})
+	}
+	// CID-keyed CFF fonts: 10 + (number of private DICTs) sections
+	fds := []int{3}
+	if c.Tier == "thorough" {
+		fds = []int{3, 5, 16}
+	}
+	for _, n := range fds {
+		spec := fmt.Sprintf("cid:%d:sub:%d:%d:simple", n, r.Range(2, 4)+n/4, r.Intn(1000000))
+		safely(c, spec, func() { cidCases(c, spec) })
 	}
 	// the table decoders called directly on failing sources
 	ttf := fmt.Sprintf("sub:%d:%d:go:goregular|Write", r.Range(20, 60), r.Intn(1000000))
@@ -1927,15 +2048,15 @@ func areaFaults(c *Ctx) {
 			"raw:goregular#OS/2", "raw:goregular#post", "raw:goregular#head", "raw:goregular#maxp")
 	}
 	for _, sp := range dspecs {
-		decoderCases(c, sp)
+		safely(c, "decoder:"+sp, func() { decoderCases(c, sp) })
 	}
-	regionCases(c, ttf)
-	regionCases(c, "simple|Write")
+	safely(c, "region:"+ttf, func() { regionCases(c, ttf) })
+	safely(c, "region:simple", func() { regionCases(c, "simple|Write") })
 	// tables larger than 1 MiB
-	bigCases(c, 0)
+	safely(c, "big-0", func() { bigCases(c, 0) })
 	if c.Tier == "thorough" {
 		for v := 1; v < 4; v++ {
-			bigCases(c, v)
+			safely(c, fmt.Sprintf("big-%d", v), func() { bigCases(c, v) })
 		}
 	}
 	// the buffered parser on sources ending at every k
@@ -1946,6 +2067,6 @@ func areaFaults(c *Ctx) {
 		hist = 4
 	}
 	for _, n := range plens {
-		parserCases(c, n, hist)
+		safely(c, fmt.Sprintf("parser-%d", n), func() { parserCases(c, n, hist) })
 	}
 }
